@@ -55,12 +55,17 @@ def gen_sig(rng, n=None, m=None, bounded=True, near=False):
     return sig_leaf(rows, c)
 
 
-def gen_box(rng, n, eq=False):
+def gen_box(rng, n, eq=False, eqfirst=False):
     if eq and n == 2 and rng.random() < 0.3:
         lo = F(rng.randint(-2, 0))
         return {'eqbox': [frac_str(lo), frac_str(lo + rng.randint(1, 3))]}
     lo = [F(rng.randint(-2, 0)) for _ in range(n)]
     hi = [l + rng.randint(1, 3) for l in lo]
+    if eqfirst and n >= 2 and rng.random() < 0.3:
+        # a degenerate box: coordinate j is fixed, by an EQUALITY that is listed before the inequalities of the other coordinates
+        j = rng.randrange(n)
+        lo[j] = hi[j] = F(rng.randint(-4, 4), 4)
+        return {'lo': [frac_str(x) for x in lo], 'hi': [frac_str(x) for x in hi], 'eqfirst': j}
     return {'lo': [frac_str(x) for x in lo], 'hi': [frac_str(x) for x in hi]}
 
 
@@ -84,6 +89,13 @@ def build_sig_domain(n, box):
                          gts=[(lambda z, a=a, b=b: b - a @ z) for a, b in rows], eqs=[])
     lo = np.array([float(F(x)) for x in box['lo']])
     hi = np.array([float(F(x)) for x in box['hi']])
+    if 'eqfirst' in box:
+        j = box['eqfirst']
+        rest = [i for i in range(n) if i != j]
+        cons = [x[j] == lo[j]] + [x[i] >= lo[i] for i in rest] + [x[i] <= hi[i] for i in rest]
+        return SigDomain(n, coniclifts_cons=cons,
+                         gts=[(lambda z, i=i: z[i] - lo[i]) for i in rest] + [(lambda z, i=i: hi[i] - z[i]) for i in rest],
+                         eqs=[lambda z: z[j] - lo[j]])
     X = SigDomain(n, coniclifts_cons=[x >= lo, x <= hi],
                   gts=[(lambda z, i=i: z[i] - lo[i]) for i in range(n)] + [(lambda z, i=i: hi[i] - z[i]) for i in range(n)], eqs=[])
     return X
